@@ -1306,21 +1306,11 @@ var voterecordsPool = sync.Pool{
 	},
 }
 
-var voterecordsPoolPut = func(vr *voterecords) {
-	vr.Lock()
-	defer vr.Unlock()
-
-	vr.sp = base.ZeroStagePoint
-	vr.isValidVoteproof = nil
-	vr.getSuffrageFunc = nil
-	clear(vr.voted)
-	clear(vr.ballots)
-	clear(vr.expels)
-	clear(vr.vps)
-	vr.log = zerolog.Nop()
-
-	voterecordsPool.Put(vr)
-}
+// NOTE the released voterecords is not recycled; the goroutines, which got the
+// voterecords before it was released, still work on it (MissingNodes,
+// StuckVoteproof, the deferred voteproof check of vote()) and nothing tracks
+// them.
+var voterecordsPoolPut = func(*voterecords) {}
 
 func sortBallotSignFactsByExpels(
 	local base.Address,
